@@ -50,3 +50,9 @@ Proof. reflexivity. Qed.
    wait for close(responseReady): the hand-over is ordered after the writes *)
 Lemma response_accessors_wait : client_accessors_wait_for_response = true.
 Proof. reflexivity. Qed.
+
+(* C14 / C06: for a 101 response net/http hands the connection itself over as the body and stops
+   watching the context; makeRequest closes it and publishes an empty body instead, so every read
+   and drain the call performs on its response is one the context (or the peer's end) interrupts *)
+Lemma switching_protocols_body_replaced : duplex_101_body_replaced = true.
+Proof. reflexivity. Qed.
